@@ -57,7 +57,22 @@ def gen_inputs(disc, rng: common.Rng) -> dict[str, Any]:
             data[name] = value * factors + shift * (value == 0.0)
         elif isinstance(value, float):
             data[name] = value * (1.0 + rng.randint(-4, 4) / 64.0)
+    # a discipline configured for complex data (e.g. the Sobieski disciplines with dtype="complex128"): half of the
+    # inputs are complex points with dyadic imaginary parts, half are real points of complex dtype (the only ones at
+    # which the complex-step approximation accepts to differentiate)
+    cnames = [n for n, v in disc.io.input_grammar.defaults.items() if isinstance(v, np.ndarray) and v.dtype.kind == "c" and v.size]
+    if cnames:
+        real_point = rng.chance(0.5)
+        for name in cnames:
+            value = disc.io.input_grammar.defaults[name]
+            factors = np.array([1.0 + rng.randint(-4, 4) / 64.0 for _ in range(value.size)]).reshape(value.shape)
+            imag = np.array([0.0 if real_point else rng.randint(-8, 8) / 1024.0 for _ in range(value.size)]).reshape(value.shape)
+            data[name] = (value * factors + 1j * imag).astype(value.dtype)
     return data
+
+
+def is_complex_configured(disc) -> bool:
+    return any(isinstance(v, np.ndarray) and v.dtype.kind == "c" for v in disc.io.input_grammar.defaults.values())
 
 
 def _fresh(data):
@@ -130,7 +145,7 @@ def _is_approx(disc) -> bool:
 def _float_default_names(disc) -> list[str]:
     out = []
     for n, v in disc.io.input_grammar.defaults.items():
-        if isinstance(v, np.ndarray) and v.dtype.kind == "f" and v.size:
+        if isinstance(v, np.ndarray) and v.dtype.kind in "fc" and v.size:
             out.append(n)
     return sorted(out)
 
@@ -168,7 +183,7 @@ def apply_edits(disc, edits, pre_inputs) -> list[tuple[str, str, Any]]:
                 names = _float_default_names(disc)
                 if names:
                     n = names[int(arg) % len(names)]
-                    new = np.array(gin.defaults[n], dtype=float) * 1.25 + 0.5
+                    new = np.array(gin.defaults[n], dtype=gin.defaults[n].dtype) * 1.25 + 0.5
                     gin.defaults[n] = new
                     done.append((kind, n, new.copy()))
             elif kind == "out-optional":
@@ -205,7 +220,7 @@ def apply_edits(disc, edits, pre_inputs) -> list[tuple[str, str, Any]]:
                 done.append((kind, "", None))
             elif kind == "lin-mode":
                 modes = sorted(str(m) for m in disc.LinearizationMode)
-                m = modes[int(arg) % len(modes)]
+                m = arg if isinstance(arg, str) and arg in modes else modes[int(arg) % len(modes)]
                 disc.linearization_mode = disc.LinearizationMode(m)
                 done.append((kind, "", m))
         except Exception as ex:  # noqa: BLE001  (an edit the class refuses is not part of the case)
@@ -295,7 +310,7 @@ def near_inputs(disc, done, seen_inputs) -> list[dict[str, Any]]:
     tol = next((v for k, _, v in reversed(done) if k == "cache-tol"), None)
     if tol:
         for x in seen_inputs[-2:]:
-            names = sorted(n for n, v in x.items() if isinstance(v, np.ndarray) and v.dtype.kind == "f" and v.size)
+            names = sorted(n for n, v in x.items() if isinstance(v, np.ndarray) and v.dtype.kind in "fc" and v.size)
             if names:
                 y = {k: (v.copy() if isinstance(v, np.ndarray) else v) for k, v in x.items()}
                 y[names[0]].flat[0] += tol / 4.0
@@ -474,6 +489,7 @@ def run_discipline_case(case: dict[str, Any], tmp: Path) -> Outcome:
     out.info["near_inputs"] = len(extra)
     post_inputs = extra + post_inputs  # (first: while the caches still hold what the life left in them)
     first = True
+    cplx = is_complex_configured(disc)
     out.info["near_hits"] = 0
     for ix, x in enumerate(post_inputs):
         before = OBS.discipline_view(disc) if first else None
@@ -487,6 +503,8 @@ def run_discipline_case(case: dict[str, Any], tmp: Path) -> Outcome:
             dd = OBS.diff_views(before, after)
             if dd:
                 out.fail("copy-affects-original", "executing the copy changed the original: " + "; ".join(dd[:3]))
+        if cplx and rc[0] == "out" and any(isinstance(v, np.ndarray) and v.dtype.kind == "c" and bool(np.any(v.imag != 0.0)) for v in x.values()):
+            out.info["complex_inputs"] = True  # (histogram only)
         ro, mo = _exec_view(ref, x)
         if ix < len(extra) and ro[0] == "out" and ref.execution_statistics.n_executions == n_ref_before:
             out.info["near_hits"] += 1  # (histogram only: the reference answered from its cache)
@@ -499,6 +517,8 @@ def run_discipline_case(case: dict[str, Any], tmp: Path) -> Outcome:
         if moment == "linearized" or case.get("post_linearize", True):
             jo, mo = _lin_view(ref, x)
             jc, mc = _lin_view(copy, x)
+            if cplx and jc[0] == "jac" and str(getattr(copy, "linearization_mode", "")) == "complex_step":
+                out.info["complex_step"] = True  # (histogram only)
             if jo != jc:
                 xs = {k: np.asarray(v).tolist() for k, v in x.items()}
                 if jo[0] == "exc" or jc[0] == "exc":
